@@ -121,6 +121,23 @@ func init() {
 		if u := typesUniverse(rc); u != nil {
 			rc.execFamily(u, "C05")
 		}
+		// "every input": the numeric boundary universes of C13 and C16 (overflow in
+		// both directions, irregular number spellings, invalid .decimal arguments)
+		// and like_regex patterns, judged for totality, purity and classification
+		if rc.runMC("MC_C13", []string{"Inv"}, nil, 30*time.Minute) == nil {
+			return
+		}
+		if slots := rc.loadCorpus(); slots != nil {
+			rc.execFamily(c13Universe(slots), "C05")
+		}
+		if rc.runMC("MC_C16", []string{"Inv"}, map[string]string{"Heavy": "FALSE"}, 30*time.Minute) == nil {
+			return
+		}
+		if slots := rc.loadCorpus(); slots != nil {
+			u, _ := c16Universe(slots, false)
+			rc.execFamily(u, "C05")
+		}
+		rc.execFamily(regexUniverse(), "C05")
 	}
 	checks["C06"] = func(rc *RunCtx) {
 		mixCheck(rc, small, mid, 20000, 300000, "C06")
